@@ -10,6 +10,9 @@ open Driver ScionTime.Time64 ScionTime.Server
   srv.utx <id> <rxt> <txt1>                   -> ok txt=<ns> | <snap>
   srv.bulk <n> <idbase> <base> <step> <d>     -> ok n=<n>     (closed-form state; store must be empty)
   srv.bulkcheck <n> <idbase> <base> <step> <d> -> ok equal|differ  (closed form vs replay through handleRequest)
+  srv.par <now> <sub> ; <sub> ; …             sub = hr <id> <org.s> <org.f> <rx.s> <rx.f> <tx.s> <tx.f> <rxt> | utx <id> <rxt> <txt1>
+      -> ok early=0 | <sub result> | … | n=<len> hn=<heap len> its=<id>:<qval>:<rx>/<tx>,..;..
+      (the harness runs the sub-operations concurrently against one stalled critical section; here: in order)
   srv.digest                                  -> ok n=<len> hn=<heap len> d=<hk>.<s1>.<s2>
   snap (full)  : n=<len> h=[k,..] items=<id>:<qidx>:<qval>:<rx>/<tx>,..;..   (items sorted by id)
   snap (brief) : n=<len> hn=<heap len> top=<id|-> it=<item of the op's id|->
@@ -66,6 +69,44 @@ def digest (st : State) : String :=
     ((acc.1 + g) % m, (acc.2 + g * g % m) % m)) (0, 0)
   s!"n={st.items.length} hn={st.heap.size} d={hk}.{s1}.{s2}"
 
+def fmtItemNoIdx (k : Nat) (it : Item) : String :=
+  s!"{k}:{f64 it.qval}:" ++ ",".intercalate (it.buf.map fun e => s!"{f64 e.rx}/{f64 e.tx}")
+
+def splitSubs (toks : List String) : List (List String) :=
+  toks.foldr (fun t acc => if t = ";" then [] :: acc else
+    match acc with
+    | [] => [[t]]
+    | a :: r => (t :: a) :: r) [[]]
+
+/-- one sub-operation of `srv.par`: new state, its result, its client. -/
+def parSub (st : State) (now : Int) : List String → Option (State × String × Nat)
+  | ["hr", id, os, of, rs, rf, ts, tf, rxt] =>
+    match parseNat? id, parseInt? os, parseInt? of, parseInt? rs, parseInt? rf,
+          parseInt? ts, parseInt? tf, parseInt? rxt with
+    | some id, some os, some of, some rs, some rf, some ts, some tf, some rxt =>
+      if okT64 os of && okT64 rs rf && okT64 ts tf then
+        let r := handleRequest tssCap tssItemCap st id ⟨⟨os, of⟩, ⟨rs, rf⟩, ⟨ts, tf⟩⟩ rxt now
+        some (r.st, s!"rx={f64 r.reply.rx} org={f64 r.reply.org} tx={f64 r.reply.tx} ref={f64 r.reply.ref} rxt={r.rxt} txt={r.txt}", id)
+      else none
+    | _, _, _, _, _, _, _, _ => none
+  | ["utx", id, rxt, txt1] =>
+    match parseNat? id, parseInt? rxt, parseInt? txt1 with
+    | some id, some rxt, some txt1 =>
+      let r := updateTX st id rxt txt1
+      some (r.1, s!"txt={r.2}", id)
+    | _, _, _ => none
+  | _ => none
+
+def parRun (st : State) (now : Int) : List (List String) → Option (State × List String × List Nat)
+  | [] => some (st, [], [])
+  | s :: rest =>
+    match parSub st now s with
+    | none => none
+    | some (st1, res, id) =>
+      match parRun st1 now rest with
+      | none => none
+      | some (st2, rs, ids) => some (st2, res :: rs, id :: ids)
+
 def step (d : DS) (toks : List String) : DS × String :=
   match toks with
   | ["srv.reset"] => ({ d with st := init }, "ok")
@@ -90,6 +131,18 @@ def step (d : DS) (toks : List String) : DS × String :=
       let r := updateTX d.st id rxt txt1
       ({ d with st := r.1 }, s!"ok txt={r.2} | {snap d r.1 id}")
     | _, _, _ => (d, "bad-op")
+  | "srv.par" :: now :: sub0 :: subs =>
+    match parseInt? now with
+    | some now =>
+      match parRun d.st now (splitSubs (sub0 :: subs)) with
+      | some (st, rs, ids) =>
+        let its := ids.map fun k => match st.items.find k with
+          | some it => fmtItemNoIdx k it
+          | none => "-"
+        ({ d with st := st },
+          s!"ok early=0 | {" | ".intercalate rs} | n={st.items.length} hn={st.heap.size} its={";".intercalate its}")
+      | none => (d, "bad-op")
+    | none => (d, "bad-op")
   | [op, n, idbase, base, stp, dd] =>
     match parseNat? n, parseNat? idbase, parseInt? base, parseInt? stp, parseInt? dd with
     | some n, some idbase, some base, some stp, some dd =>
